@@ -182,8 +182,27 @@ def stack_guided_genomes(g, max_states: int = 300, max_len: int = 14, failures_l
         def random_float(self, lo, hi):
             return float(lo)
 
+    # the draw that picks the next stack type is a weighted choice: its representative answers are the first and the last
+    # value of every option's interval (computed from the grammar's own weights; multiples of 1e5 if that fails)
+    type_choice_values: dict = {}
+    try:
+        acc, prev = 0.0, 0
+        ws = g.get_weights()
+        vals = []
+        for t in S.ordered_stack_types(g):
+            acc += ws.get(t, 1)
+            cur = int(acc * 100000)
+            if cur > prev:
+                vals += [prev, cur - 1]
+            prev = cur
+        type_choice_values[prev] = sorted(set(vals))
+    except Exception:  # noqa
+        pass
+
     def domain(lo, hi):
         n = hi - lo + 1
+        if lo == 0 and n in type_choice_values:
+            return type_choice_values[n]
         if n % 100000 == 0 and n >= 100000:  # a weighted choice between n / 1e5 equally weighted options
             return [i * 100000 for i in range(n // 100000)]
         if n <= 12:
@@ -232,6 +251,22 @@ def stack_guided_genomes(g, max_states: int = 300, max_len: int = 14, failures_l
             except Exception:  # noqa -- the machine gave up on this prefix
                 continue
         frontier = nxt
+    # a second copy of every completed prefix with the type-choice answers moved to the LAST value of the same interval:
+    # the same path under the grammar's current weights, another one as soon as the weights in force differ
+    variants = []
+    for total, vals in type_choice_values.items():
+        ends = sorted(v for v in vals)
+        for prefix, ranges, prog in complete:
+            moved = []
+            for v, (lo, hi) in zip(prefix, ranges):
+                if lo == 0 and hi - lo + 1 == total:
+                    later = [e for e in ends if e >= v]
+                    moved.append(later[0] if later and later[0] != v else (later[1] if len(later) > 1 and (later[0] == v and ends.index(v) % 2 == 0) else v))
+                else:
+                    moved.append(v)
+            if tuple(moved) != tuple(prefix):
+                variants.append((tuple(moved), ranges, prog))
+    complete = complete + variants
     out = []
     for prefix, ranges, prog in complete:
         if len(prefix) < 2:
